@@ -225,7 +225,7 @@ func (s *encoder) Run(ctx context.Context) {
 		return
 	}
 
-	s.data, err = splitWithUDHI(encodedData, perMsgLength, s.frameKey)
+	s.data, err = splitWithUDHI(encodedData, perMsgLength, s.frameKey, boundaryFor(encoder.Name()))
 	if err != nil {
 		s.canEncode = false
 		s.reason = fmt.Sprintf("%s split error: %v", s.Name(), err)
